@@ -306,6 +306,7 @@ impl Interner {
         // objects keyed by the entry index; "n" is a sentinel so that the
         // record is never empty
         let mut p = serde_json::Map::new();
+        let mut pk = Vec::new();
         p.insert("n".into(), entry_json(0, g.cb));
         for (i, ch) in buf.chunks(8).enumerate() {
             if ch.len() < 8 {
@@ -314,6 +315,7 @@ impl Interner {
             let e = u64::from_be_bytes(ch.try_into().unwrap());
             if e != 0 {
                 p.insert(i.to_string(), entry_json(e, g.cb));
+                pk.push(i);
             }
         }
         let mut r = serde_json::Map::new();
@@ -328,7 +330,7 @@ impl Interner {
             }
         }
         self.defs
-            .push(json!({"e": "Meta", "id": id, "p": p, "r": r, "rk": rk}));
+            .push(json!({"e": "Meta", "id": id, "p": p, "r": r, "rk": rk, "pk": pk}));
         ABlock { k: 'm', t: id }
     }
 
